@@ -30,6 +30,7 @@ Print Assumptions C03_tc_complete.
 
 Theorem C03_expr_sound : forall G E e te, tc_expr G E e = Some te -> has_type G E e te.
 Proof. intros G E. exact (proj1 (tc_expr_sound G E)). Qed.
+Print Assumptions C03_expr_sound.
 
 Theorem C03_expr_complete : forall G E e te, has_type G E e te -> tc_expr G E e = Some te.
 Proof. intros G E. exact (proj1 (tc_expr_complete G E)). Qed.
@@ -60,6 +61,41 @@ Proof. apply tc_sound. vm_compute. reflexivity. Qed.
 (* a single point mutant is not derivable: 1.5 is not representable as int *)
 Example C03_example_reject : ~ prog_ok (ex_prog_with (ELitF 3 2)).
 Proof. intros H. apply tc_complete in H. vm_compute in H. discriminate. Qed.
+
+(* non vacuity for the composite part of the fragment: a defined struct type,
+   a composite literal with field names, the address of a literal, selection
+   through the pointer, a slice literal with an index key, append, a range
+   clause with two variables, a map literal, an index expression with the
+   comma free form, a comparison of a slice with nil, a type assertion on the
+   empty interface; idx is the constant index into the array [3]int *)
+Definition T8 : ty := TDef 8%N (TStruct [TBasic BInt; TBasic BString]).
+Definition ex_comp_with (idx : Z) : program :=
+  {| p_imports := []; p_globals := []; p_funcs := [];
+     p_main :=
+       BCons (SShort [1%N] (ECons (EAddr (ECompLit T8 (LIdx 1 (ELitS 1%N) (LIdx 0 (ELitI 4) LNil)))) ENone))
+      (BCons (SShort [2%N] (ECons (ECompLit (TSlice (TBasic BInt)) (LPos (ESel (EVar 1%N) 0%N) (LIdx 3 (ELitI 7) LNil))) ENone))
+      (BCons (SAssign [2%N] (ECons (EAppend (EVar 2%N) (ECons (ELen (EVar 2%N)) ENone)) ENone))
+      (BCons (SVar [3%N] (Some (TArray 3 (TBasic BInt))) ENone)
+      (BCons (SRange 4%N 5%N true (EVar 2%N)
+                (BCons (SSet (EIndex (EVar 3%N) (ELitI idx)) (EBin OAdd (EVar 4%N) (EVar 5%N))) BNil))
+      (BCons (SShort [6%N] (ECons (ECompLit (TMap (TBasic BString) (TBasic BInt))
+                                      (LKey (ELitS 1%N) (EIndex (EVar 3%N) (ELitI 0)) LNil)) ENone))
+      (BCons (SVar [7%N] (Some TAny) (ECons (EIndex (EVar 6%N) (ELitS 2%N)) ENone))
+      (BCons (SIf (EBin OLAnd (EBin ONe (EVar 2%N) ENilE) (EBin OEq (EAssert (EVar 7%N) (TBasic BInt)) (ELitI 0)))
+                  (BCons (SExpr (EDelete (EVar 6%N) (ELitS 1%N))) BNil) BNil)
+       BNil))))))) |}.
+
+Example C03_example_composite_accept : prog_ok (ex_comp_with 2).
+Proof. apply tc_sound. vm_compute. reflexivity. Qed.
+
+(* the single point mutant with the constant index 3 is not derivable: the
+   index is out of range for [3]int *)
+Example C03_example_composite_reject : ~ prog_ok (ex_comp_with 3).
+Proof. intros H. apply tc_complete in H. vm_compute in H. discriminate. Qed.
+
+(* addressability is decided by the rules exactly as by the checker *)
+Theorem C03_addressable_iff : forall G E e, addressable G E e = true <-> Addressable G E e.
+Proof. exact addressable_iff. Qed.
 
 Example C03_example_sites : existsb (fun s => rejection_class (snd s)) gen_panic_sites = true.
 Proof. exact some_checking_site. Qed.
